@@ -274,6 +274,14 @@ func (c *Conn) Closed() bool { return c.closed.Load() }
 // CloseCalls is the number of Close calls seen.
 func (c *Conn) CloseCalls() int { return int(c.closeCount.Load()) }
 
+// AtEOF reports whether the next Read would return io.EOF: the peer closed its write side
+// and everything it wrote has been read.
+func (c *Conn) AtEOF() bool {
+	c.r.mu.Lock()
+	defer c.r.mu.Unlock()
+	return len(c.r.buf) == 0 && c.r.wclosed && len(c.r.pending) == 0 && c.r.err == nil
+}
+
 // Pending is the number of bytes written by the peer and not yet read here.
 func (c *Conn) Pending() int {
 	c.r.mu.Lock()
